@@ -157,8 +157,18 @@ func (i *interpreter) trimSpace(s value) (value, value, value) {
 	t := p.freshVar("core", SStr)
 	b := p.freshVar("wsR", SStr)
 	p.memo["trim|"+tStr(s)] = [3]value{a, t, b}
+	// cheap part in the path condition: the decomposition and the ASCII edge
+	// conditions; the exact (Unicode) white-space languages are kept lazily
+	// and asserted in obligation/witness queries only
+	first := "(str.to_code (str.at " + t.e + " 0))"
+	last := "(str.to_code (str.at " + t.e + " (- (str.len " + t.e + ") 1)))"
+	notAsciiWS := func(c string) string {
+		return "(not (or (and (<= 9 " + c + ") (<= " + c + " 13)) (= " + c + " 32)))"
+	}
 	p.pc = append(p.pc,
 		"(= "+tStr(s)+" (str.++ "+a.e+" "+t.e+" "+b.e+"))",
+		"(or (= (str.len "+t.e+") 0) (and "+notAsciiWS(first)+" "+notAsciiWS(last)+"))")
+	p.lazy = append(p.lazy,
 		"(str.in_re "+a.e+" (re.* "+wsTokenRe+"))",
 		"(str.in_re "+b.e+" (re.* "+wsTokenRe+"))",
 		"(not (str.in_re "+t.e+" (re.++ "+wsTokenRe+" re.all)))",
@@ -252,7 +262,7 @@ func (i *interpreter) split(s value, sep string, n int) []value {
 			i.path.obls = append(i.path.obls, &Obligation{Kind: "unwind", Msg: fmt.Sprintf("Split: more than %d parts", i.ex.Unwind), Status: "undecided"})
 			panic(pathEnd{reason: "unwind", detail: "split"})
 		}
-		if len(sep) == 1 {
+		if len(sep) >= 1 {
 			if head, tail, found := p.splitFirst(rest, sep); found == 1 {
 				parts = append(parts, head)
 				rest = tail
@@ -286,6 +296,9 @@ func (i *interpreter) split(s value, sep string, n int) []value {
 // found = 1 (head/tail returned), 0 (provably absent), -1 (unknown).
 func (p *Path) splitFirst(s value, sep string) (head, tail value, found int) {
 	segs := segmentsOf(s)
+	if len(sep) > 1 {
+		return p.splitFirstMulti(segs, sep)
+	}
 	for k, sg := range segs {
 		switch sg := sg.(type) {
 		case string:
@@ -297,6 +310,78 @@ func (p *Path) splitFirst(s value, sep string) (head, tail value, found int) {
 		case *Sym:
 			if !p.noContain(sg.e, sep) {
 				return nil, nil, -1
+			}
+		}
+	}
+	return nil, nil, 0
+}
+
+// splitFirstMulti: first occurrence of a multi-byte separator, decided only
+// when every occurrence must start in a concrete segment (the separator's first
+// byte is outside every symbolic segment's alphabet) and each candidate either
+// completes inside concrete text or runs into a symbolic segment whose
+// alphabet excludes the next needed byte.
+func (p *Path) splitFirstMulti(segs []interface{}, sep string) (head, tail value, found int) {
+	for _, sg := range segs {
+		if ss, ok := sg.(*Sym); ok {
+			a, has := p.alpha[ss.e]
+			if !has || a[sep[0]] {
+				return nil, nil, -1
+			}
+		}
+	}
+	for k, sg := range segs {
+		c, ok := sg.(string)
+		if !ok {
+			continue
+		}
+		for j := 0; j < len(c); j++ {
+			if c[j] != sep[0] {
+				continue
+			}
+			// try to match sep from (k, j)
+			si, sk, sj := 0, k, j
+			res := 1 // 1 match, 0 no match, -1 unknown
+			for si < len(sep) {
+				if sk >= len(segs) {
+					res = 0
+					break
+				}
+				switch cur := segs[sk].(type) {
+				case string:
+					if sj >= len(cur) {
+						sk, sj = sk+1, 0
+						continue
+					}
+					if cur[sj] != sep[si] {
+						res = 0
+					}
+					si, sj = si+1, sj+1
+				case *Sym:
+					a := p.alpha[cur.e]
+					lo, _ := p.ivOf(p.mkLen(cur))
+					if lo == nil || lo.Sign() <= 0 {
+						res = -1 // may be empty: the match could continue behind it
+					} else if a[sep[si]] {
+						res = -1
+					} else {
+						res = 0
+					}
+				}
+				if res != 1 {
+					break
+				}
+			}
+			if res == -1 {
+				return nil, nil, -1
+			}
+			if res == 1 && sk == k {
+				head = mkConcat(concatOf(segs[:k]), c[:j])
+				tail = mkConcat(c[j+len(sep):], concatOf(segs[k+1:]))
+				return head, tail, 1
+			}
+			if res == 1 {
+				return nil, nil, -1 // a match spanning segments: leave it to the solver
 			}
 		}
 	}
@@ -322,10 +407,68 @@ func (i *interpreter) parseInt(s value, bits uint) (value, string) {
 	}
 	p := i.path
 	ss := s.(*Sym)
+	// the decimal rendering of a non-negative integer parses back to it
+	if ss.op == "fromint" {
+		x := ss.a[0].(*Sym)
+		_, hi := p.ivOf(x)
+		lim := typeRangeHi(bits)
+		if hi != nil && hi.Cmp(lim) <= 0 {
+			return x, ""
+		}
+	}
+	// a provably non-empty segment without any digit or sign: not a number
+	for _, sg := range segmentsOf(ss) {
+		switch sg := sg.(type) {
+		case string:
+			for k := 0; k < len(sg); k++ {
+				if !(sg[k] >= '0' && sg[k] <= '9') && !(k == 0 && (sg[k] == '+' || sg[k] == '-')) {
+					return int64(0), "syntax"
+				}
+			}
+		case *Sym:
+			if a, ok := p.alpha[sg.e]; ok {
+				none := true
+				for b := '0'; b <= '9'; b++ {
+					if a[b] {
+						none = false
+					}
+				}
+				if a['+'] || a['-'] {
+					none = false
+				}
+				lo, _ := p.ivOf(p.mkLen(sg))
+				if none && lo != nil && lo.Sign() > 0 {
+					return int64(0), "syntax"
+				}
+			}
+		}
+	}
 	signed := mkInRe(ss, `(re.++ (re.union (str.to_re "+") (str.to_re "-")) `+digitsRe+`)`)
-	plain := mkInRe(ss, digitsRe)
+	var plain value = mkInRe(ss, digitsRe)
+	// digit-only alphabet and known non-empty: syntactically a plain number
+	allDigits := false
+	if a, ok := p.alpha[ss.e]; ok {
+		allDigits = true
+		for b := 0; b < 256; b++ {
+			if a[b] && (b < '0' || b > '9') {
+				allDigits = false
+			}
+		}
+	}
+	llo, lhi := p.ivOf(p.mkLen(ss))
+	if allDigits && llo != nil && llo.Sign() > 0 {
+		plain = true
+	}
 	if i.branch(plain) {
 		n := &Sym{sort: SInt, e: "(str.to_int " + ss.e + ")", lo: bigZero}
+		if allDigits && lhi != nil && lhi.IsInt64() && lhi.Int64() == 1 {
+			// one digit: value = code - 48 (much easier for the solvers than str.to_int)
+			return &Sym{sort: SInt, e: "(- (str.to_code " + ss.e + ") 48)", lo: bigZero, hi: bi(9)}, ""
+		}
+		if allDigits && lhi != nil && lhi.IsInt64() && lhi.Int64() <= 18 && bits >= 64 {
+			hi := new(big.Int).Exp(bi(10), lhi, nil)
+			return i.compact(&Sym{sort: SInt, e: n.e, lo: bigZero, hi: hi.Sub(hi, bigOne)}), ""
+		}
 		lim := typeRangeHi(bits)
 		if !i.branch(p.mkIntCmp("<=", n, limVal(lim))) {
 			return limVal(lim), "range"
@@ -381,7 +524,7 @@ func (i *interpreter) itoa(v value) value {
 	s := v.(*Sym)
 	lo, _ := p.ivOf(s)
 	if lo != nil && lo.Sign() >= 0 {
-		r := &Sym{sort: SStr, e: "(str.from_int " + s.e + ")"}
+		r := &Sym{sort: SStr, e: "(str.from_int " + s.e + ")", op: "fromint", a: []interface{}{s}}
 		var digits [256]bool
 		for c := '0'; c <= '9'; c++ {
 			digits[c] = true
@@ -821,6 +964,39 @@ func init() {
 			return tuple{v, fr.i.numError("ParseInt", a[0], ek)}
 		}
 		return tuple{v, nilErr()}
+	})
+	reg("strconv.ParseUint", func(fr *frame, a []value) value {
+		i := fr.i
+		base := i.concreteInt(a[1], "base")
+		bits := i.concreteInt(a[2], "bitSize")
+		if s, ok := a[0].(string); ok {
+			v, err := strconv.ParseUint(s, int(base), int(bits))
+			if err != nil {
+				kind := "syntax"
+				if ne, ok := err.(*strconv.NumError); ok && ne.Err == strconv.ErrRange {
+					kind = "range"
+				}
+				return tuple{int64(v), i.numError("ParseUint", a[0], kind)}
+			}
+			return tuple{int64(v), nilErr()}
+		}
+		if base != 10 {
+			unsup("ParseUint base %d on symbolic string", base)
+		}
+		if bits == 0 {
+			bits = 64
+		}
+		ss := a[0].(*Sym)
+		if !i.branch(mkInRe(ss, digitsRe)) {
+			return tuple{int64(0), i.numError("ParseUint", a[0], "syntax")}
+		}
+		_, max := typeRange(uint(bits), false)
+		n := &Sym{sort: SInt, e: "(str.to_int " + ss.e + ")", lo: bigZero}
+		maxS := &Sym{sort: SInt, e: max.String(), lo: max, hi: max}
+		if !i.branch(i.path.mkIntCmp("<=", n, maxS)) {
+			return tuple{maxS, i.numError("ParseUint", a[0], "range")}
+		}
+		return tuple{i.compact(&Sym{sort: SInt, e: n.e, lo: bigZero, hi: max}), nilErr()}
 	})
 	reg("strconv.Itoa", func(fr *frame, a []value) value { return fr.i.itoa(a[0]) })
 	reg("strconv.FormatInt", func(fr *frame, a []value) value {
